@@ -1,7 +1,7 @@
 (* Counterexamples to the soundness of the verdicts, evaluated on the model and
    on the reference evaluator by vm_compute.  Each was first found by the
    harness on the real code. *)
-From PV Require Import Lib.Bytes Model.Redundant Spec.MakeEval Spec.VerdictSound.
+From PV Require Import Lib.Bytes Model.Redundant Spec.MakeEval Spec.VerdictSound Spec.SingleFile.
 
 Definition vA : var := [86; 65]%N.   (* "VA" *)
 Definition vB : var := [86; 66]%N.   (* "VB" *)
@@ -176,4 +176,8 @@ Definition prog_good_eval : program :=
 Lemma prog_good_eval_facts :
   wf_program prog_good_eval = true /\ check prog_good_eval = Ok [mkVerdict 2 1 KRedundant] /\
   guard prog_good_eval (mkVerdict 2 1 KRedundant) = true /\ eager_plain prog_good_eval = false.
+Proof. repeat split; vm_compute; reflexivity. Qed.
+
+Lemma prog_good_single :
+  single_file prog_good = true /\ eager_plain prog_good = true /\ no_shell prog_good = true.
 Proof. repeat split; vm_compute; reflexivity. Qed.
